@@ -167,8 +167,11 @@ def gen_gr_case(rng, big=False, kind=None):
         ct = "matrix"                       # rejected by the loop chain: ValueError
     elif r < 0.08 and cond["kind"] in ("real", "complex"):
         ct = ""                             # falsy, like None
+    pos = gen_positions(rng, d, N, L, config)
+    if rng.random() < 0.3:
+        pos = common.unfold_positions(rng, pos, H, ppp)       # unfolded (xu) coordinates
     return {"op": "gr", "d": d, "N": N, "cell": cell, "ppp": ppp, "box": L, "H": H, "rdelta": rng.choice(DELTAS),
-            "pos": gen_positions(rng, d, N, L, config), "config": config, "cond": cond, "ctype": ct}
+            "pos": pos, "config": config, "cond": cond, "ctype": ct}
 
 
 def gen_sq_case(rng, big=False, kind=None):
